@@ -38,9 +38,9 @@ TOL = 1e-9
 
 
 def out_of_time(ctx, extra=0):
-    """stop generating new cases: quick tier after 30 s of wall time (the check must end within 60 s), thorough after 14 min"""
+    """stop generating new cases: quick tier after 30 s of wall time (the check must end within 60 s), thorough after 10 min"""
     import time
-    return (time.time() - ctx.t0) > ((30 if ctx.tier == "quick" else 840) + extra)
+    return (time.time() - ctx.t0) > ((30 if ctx.tier == "quick" else 600) + extra)
 
 
 def phys_dump(phys):
